@@ -628,6 +628,21 @@ func (e *Engine) verifyShard(fn *ssa.Function, fc *FuncContract, opts VerifyOpts
 			x.oblig(x.curFnName+"/assigns", "frame", fc.Props, fn.Pos(), "assigns "+strings.Join(fc.Assigns, ", "))
 		}
 	})
+	if fc.OrderFree && shard <= 0 {
+		props := fc.OrderFreeProps
+		if len(props) == 0 {
+			props = fc.Props
+		}
+		ob := x.oblig(x.curFnName+"/orderfree", "order", props, fn.Pos(), "every slice appended to inside a range-over-map loop is passed to sort.Strings/Ints/Sort before it is used (static check on the SSA, back end: dataflow)")
+		ob.Instances++
+		if why := e.orderFreeViolation(fn); why == "" {
+			ob.Unsat++
+			ob.Engines["ssa-dataflow"]++
+		} else {
+			ob.Text += " [" + why + "]"
+			ob.Failures = append(ob.Failures, &Failure{Status: "static", Trace: []string{why}})
+		}
+	}
 	if fc.HasAssign {
 		if o := x.obligs[x.curFnName+"/assigns"]; o != nil && o.Instances == 0 {
 			o.Instances, o.Unsat = 1, 1
